@@ -15,9 +15,51 @@ def strings_valid(toks):
     return True
 
 
+def is_op(t, s):
+    return t.kind == "op" and t.text == s
+
+
+def mutate_parens(toks, rng):
+    """grammar-aware mutant: parenthesise a name or a var (`a`, `a.b`, `a[1]`) where it stands. `(a)` is an expression
+    but not a var: as an assignment target (`(a) = 1`, `x, (y) = 1, 2`, `(a.b) = 1`, `((a)) = 1`), as the key of a table
+    field (`{(a) = 1}`), in a local / for / parameter list the text becomes invalid; as a prefix (`(a).b = 1`, `(a)()`),
+    operand or value it stays valid - the reference recogniser decides (seeded/C03-5 dropped the ParensExp node for
+    names and index expressions, which was the only thing that told `(a)` from `a`)"""
+    T, Tok = luagen.T, luagen.Tok
+    names = [j for j, t in enumerate(toks) if t.kind == "name"]
+    if not names:
+        return None
+    # prefer names in front of `=` or `,` and names that start a statement-like position
+    pref = [j for j in names if j + 1 < len(toks) and (is_op(toks[j + 1], b"=") or is_op(toks[j + 1], b","))]
+    j = rng.choice(pref) if pref and rng.random() < 0.7 else rng.choice(names)
+    a = j
+    if rng.random() < 0.5:                                  # walk back over a chain `x.y.` so that the whole var is wrapped
+        while a >= 2 and is_op(toks[a - 1], b".") and toks[a - 2].kind == "name":
+            a -= 2
+    b = j + 1
+    if rng.random() < 0.4:                                  # ... and forward over `.name` / `[ simple ]` suffixes
+        while True:
+            if b + 1 < len(toks) and is_op(toks[b], b".") and toks[b + 1].kind == "name":
+                b += 2
+            elif b + 2 < len(toks) and is_op(toks[b], b"[") and toks[b + 1].kind in ("name", "number", "string") and is_op(toks[b + 2], b"]"):
+                b += 3
+            else:
+                break
+    n = rng.choice([1, 1, 1, 2, 3])
+    out = list(toks[:a]) + [T("(")] * n + list(toks[a:b]) + [T(")")] * n + list(toks[b:])
+    return out
+
+
+PAREN_SEEDS = ["(a) = 1", "(a.b) = 1", "(a[1]) = 1", "((a)) = 1", "x, (y) = 1, 2", "(x), y = 1, 2", "x = {(a) = 1}", "f{b = 1, (a) = 2}",
+               "(a).b = 1", "(a)[1] = 1", "(a)()", "x = {[(a)] = 1, (a)}", "x = (a) + 1", "(f()) = 1", "(...) = 1", "(a+b) = 1", "(1) = 1",
+               "(a)", "local (a) = 1", "for (i) = 1, 2 do end", "function f((a)) end", "do (a) = 1 end", "(a)\n= 1", "(a) --c\n = 1",
+               "(a.b.c) = 1", "(a.b).c = 1", "(a)(b).c = 1", "x = {(a.b) = 1}", "x = {(a)}", "x = {(a), (b) = 1}", "(a), (b) = 1, 2"]
+PAREN_VALID = {"(a).b = 1", "(a)[1] = 1", "(a)()", "x = {[(a)] = 1, (a)}", "x = (a) + 1", "(a.b).c = 1", "(a)(b).c = 1", "x = {(a)}"}
+
+
 def gen_parse(rng, tier):
     nv, nm = N[tier]
-    out = []
+    out = [hexs(t.encode()) + " " + ("V" if t in PAREN_VALID else "I") for t in PAREN_SEEDS]
     for k in range(nv):
         g = luagen.Gen(rng, max_depth=rng.choice([1, 2, 2, 3, 4]))
         toks = g.chunk()
@@ -27,6 +69,11 @@ def gen_parse(rng, tier):
             mt, how = luagen.mutate(toks, rng)
             v = "V" if luagen.ref_valid(mt) and strings_valid(mt) else "I"
             out.append(hexs(luagen.render(mt, rng, "plain" if rng.random() < 0.5 else "wild")) + " " + v)
+        if rng.random() < 0.6:
+            mt = mutate_parens(toks, rng)
+            if mt is not None:
+                v = "V" if luagen.ref_valid(mt) and strings_valid(mt) else "I"
+                out.append(hexs(luagen.render(mt, rng, "plain" if rng.random() < 0.5 else "wild")) + " " + v)
     return out
 
 
